@@ -211,12 +211,13 @@ static int run_case(mat_t *Y, mat_t *T, const win_t *w, stat_t *st, char *msg, s
 }
 
 /* deadline: rank 0's clock decides (broadcast); single process: looked at every 256 cases */
+static double pair_deadline = 0;   /* the time left is shared equally among the distribution pairs still to run */
 static int deadline_cut(int force)
 {
     static unsigned cnt = 0; int cut = 0;
     if (sx_deadline <= 0) return 0;
-    if (world == 1) { if (!force && (++cnt & 255)) return 0; return sx_now() > sx_deadline; }
-    if (myrank == 0) cut = sx_now() > sx_deadline;
+    if (world == 1) { if (!force && (++cnt & 255)) return 0; return sx_now() > pair_deadline; }
+    if (myrank == 0) cut = sx_now() > pair_deadline;
     MPI_Bcast(&cut, 1, MPI_INT, 0, MPI_COMM_WORLD);
     return cut;
 }
@@ -395,10 +396,14 @@ int main(int argc, char **argv)
             mat_fini(&T); mat_fini(&Y);
         }
     } else {
+        int npairs = 0, done = 0;
+        for (int i = 0; i < b.nyd; i++) for (int j = 0; j < b.ntd; j++) { char pr[32]; snprintf(pr, sizeof(pr), "%s-to-%s,", dist_name[b.ydists[i]], dist_name[b.tdists[j]]); if (!(skip_pairs && strstr(skip_pairs, pr))) npairs++; }
         for (int i = 0; i < b.nyd; i++) for (int j = 0; j < b.ntd; j++) {
             char tag[64]; snprintf(tag, sizeof(tag), "np%d-%s-to-%s%s", world, dist_name[b.ydists[i]], dist_name[b.tdists[j]], b.reduced ? "-reduced" : b.skip_k11 ? "-kcyclic" : "");
             char pr[32]; snprintf(pr, sizeof(pr), "%s-to-%s,", dist_name[b.ydists[i]], dist_name[b.tdists[j]]);
             if (skip_pairs && strstr(skip_pairs, pr)) continue;
+            if (sx_deadline > 0) { double now = sx_now(); pair_deadline = now + (sx_deadline > now ? (sx_deadline - now) / (npairs - done) : 0); }
+            done++;
             run_pair(&b, b.ydists[i], b.tdists[j], tag);
         }
     }
